@@ -1,7 +1,7 @@
 """C09 — invalid calls fail cleanly; valid calls leave no error."""
 import re
 from .. import scripts as S, formats, readcamp as R, handlecheck as HC, abscheck, g711
-from ..core import Violation
+from ..core import Violation, modules_for
 
 NOERR = "No Error."
 
@@ -139,7 +139,7 @@ def run(ctx):
         ctx.violation("error-table", "cannot locate SFE_MAX_ERROR through sf_error_number (table layout changed)", no_input=True)
         raise Violation()
     ctx.set_generated("ErrorTable.lean", lean_error_table(mx, rows, bad))
-    failed = ctx.lean_stage(["SfProps.C09", "SfProps.C09Table"])
+    failed = ctx.lean_stage(modules_for("C09"))
     found = False
     ctx.run_regressions()
     found = bool(ctx.violations)
